@@ -131,6 +131,26 @@ def c13(r):
     r.notes.append("race detector reports: %d" % len(reports))
 
 
+def c14(r):
+    r.tlc_exhaustive("BlockStore.tla", "BlockStore.cfg", workers=4)
+    ok, _ = r.tlc_exhaustive("BlockStore.tla", "BlockStore_stale.cfg", workers=4, expect_ok=False)
+    if ok:
+        raise Inconclusive("BlockStore_stale.cfg should reproduce the (fixed) stale hash index")
+    t = r.drive("store", name="store")
+    r.tlc_validate("StoreTrace", t, ["C14."])
+
+
+def c15(r):
+    r.tlc_exhaustive("KVExec.tla", "KVExec.cfg", workers=16)
+    if r.tier == "thorough":
+        r.tlc_exhaustive("KVExec.tla", "KVExec_big.cfg", workers=16)
+    ok, _ = r.tlc_exhaustive("KVExec.tla", "KVExec_final.cfg", workers=8, expect_ok=False)
+    if ok:
+        raise Inconclusive("KVExec_final.cfg should reproduce the finalize-in-root counterexample")
+    t = r.drive("kvexec", name="kvexec")
+    r.tlc_validate("KVTrace", t, ["C15."])
+
+
 def c05(r):
     syncer(r, ["C05.", "C02."], crash=True)
 
@@ -163,7 +183,7 @@ def c08(r):
     submitter(r, ["C08."])
 
 
-PIPELINES = {"C01": c01, "C04": c04, "C02": c02, "C05": c05, "C06": c06, "C07": c07, "C08": c08, "C03": c03, "C09": c09, "C10": c10, "C11": c11, "C17": c17, "C13": c13}
+PIPELINES = {"C01": c01, "C04": c04, "C02": c02, "C05": c05, "C06": c06, "C07": c07, "C08": c08, "C03": c03, "C09": c09, "C10": c10, "C11": c11, "C17": c17, "C13": c13, "C14": c14, "C15": c15}
 ASSUME = {}
 FINISH = {}
 
@@ -172,4 +192,4 @@ def REPLAY_MONITOR(pid, path):
     import os
     import re
     m = re.match(r"%s-([A-Za-z0-9]+)-" % pid, os.path.basename(path))
-    return m.group(1) if m else {"C01": "ProducerTrace", "C04": "ProducerTrace", "C02": "SyncTrace", "C05": "SyncTrace", "C03": "SyncTrace", "C09": "SyncTrace", "C10": "QueueTrace", "C11": "FlowTrace", "C17": "LazyTrace", "C13": "WorldTrace", "C06": "SubmitTrace", "C07": "SubmitTrace", "C08": "SubmitTrace"}[pid]
+    return m.group(1) if m else {"C01": "ProducerTrace", "C04": "ProducerTrace", "C02": "SyncTrace", "C05": "SyncTrace", "C03": "SyncTrace", "C09": "SyncTrace", "C10": "QueueTrace", "C11": "FlowTrace", "C17": "LazyTrace", "C13": "WorldTrace", "C14": "StoreTrace", "C15": "KVTrace", "C06": "SubmitTrace", "C07": "SubmitTrace", "C08": "SubmitTrace"}[pid]
